@@ -26,6 +26,7 @@ package mux
 //@   modifies map[string]string: ctx.params
 //@   ensures [C13] reject-path: !result ==> r.URL.Path == old(r.URL.Path)
 //@   ensures [C13] reject-params: !result ==> dom(ctx.params) == old(dom(ctx.params)) && (forall x string :: ctx.params[x] == old(ctx.params[x]))
+//@   ensures own-map: ctx.params == old(ctx.params) || fresh(ctx.params)
 //
 //@ fn mux.MatcherFunc
 //@   params fn, r, ctx
@@ -38,10 +39,42 @@ package mux
 //@   modifies map[string]string: ctx.params
 //@   ensures [C13] reject-path: !result ==> r.URL.Path == old(r.URL.Path)
 //@   ensures [C13] reject-params: !result ==> dom(ctx.params) == old(dom(ctx.params)) && (forall x string :: ctx.params[x] == old(ctx.params[x]))
+//@   ensures own-map: ctx.params == old(ctx.params) || fresh(ctx.params)
 //
 //@ fn MatcherFunc.Match
 //@   implements mux.Matcher.Match
 //@   requires f != nil
+//
+// And/Or combinators (the closures returned by AndMatcher / OrMatcher). A rejecting combination restores what
+// accepting members changed. copyParams/restoreParams iterate through Context.Range with a callback; their
+// postconditions are stated here and used by AndMatcher$1, but are not themselves discharged (listed as unclaimed).
+//@ fn copyParams
+//@   requires ctx != nil
+//@   ensures [C13] copy: result != nil && fresh(result) && dom(result) == dom(ctx.params) && (forall x string :: result[x] == ctx.params[x])
+//@   ensures [C13] ctx-unchanged: ctx.params == old(ctx.params) && dom(ctx.params) == old(dom(ctx.params)) && (forall x string :: ctx.params[x] == old(ctx.params[x]))
+//
+//@ fn restoreParams
+//@   requires ctx != nil && params != nil
+//@   ensures [C13] restored: dom(ctx.params) == dom(params) && (forall x string :: ctx.params[x] == params[x])
+//@   ensures [C13] saved-kept: dom(params) == old(dom(params)) && (forall x string :: params[x] == old(params[x]))
+//@   ensures own-map: ctx.params == old(ctx.params) || fresh(ctx.params)
+//
+//@ pred membersOK(ms []Matcher) = forall k int :: 0 <= k && k < len(ms) ==> ms[k] != nil
+//
+//@ fn AndMatcher$1
+//@   implements mux.MatcherFunc
+//@   requires membersOK(m)
+//@   inv 1 [C13] bound: -1 <= rangeindex && rangeindex < len(m) && membersOK(m)
+//@   inv 1 [C13] first: rangeindex == -1 ==> r.URL.Path == old(r.URL.Path) && dom(ctx.params) == old(dom(ctx.params)) && (forall x string :: ctx.params[x] == old(ctx.params[x]))
+//@   inv 1 [C13] own-map: ctx.params == old(ctx.params) || fresh(ctx.params)
+//@   inv 1 [C13] saved: path == old(r.URL.Path) && params != nil && params != ctx.params && dom(params) == old(dom(ctx.params)) && (forall x string :: params[x] == old(ctx.params[x]))
+//
+//@ fn OrMatcher$1
+//@   implements mux.MatcherFunc
+//@   requires membersOK(m)
+//@   inv 1 [C13] bound: -1 <= rangeindex && rangeindex < len(m) && membersOK(m)
+//@   inv 1 [C13] own-map: ctx.params == old(ctx.params) || fresh(ctx.params)
+//@   inv 1 [C13] untouched: r.URL.Path == old(r.URL.Path) && dom(ctx.params) == old(dom(ctx.params)) && (forall x string :: ctx.params[x] == old(ctx.params[x]))
 //
 //@ fn anyRouter
 //@   nopanic
@@ -208,20 +241,20 @@ package mux
 //@   ensures [C08] size: resp.size == old(resp.size) + len(bs)
 //@   ensures [C08] content-length: hdrOf(resp.ResponseWriter).first["Content-Length"] == pure0("strconv.Itoa", resp.size)
 //
-//@ pred routerOK(r *Router) = r != nil && r.tree != nil && r.call != nil && corsValid(r.cors)
+//@ pred routerOK(r *Router) = r != nil && r.tree != nil && r.call != nil && corsValid(r.cors) && treeOK(r.tree) && lockFree(r.tree)
 //
 // The deferred closure of serveContext: recovers and hands the value to the RecoverFunc exactly once.
 //@ fn Router.serveContext$1
-//@   requires r != nil && deref(r) != nil && deref(r).recoverFunc != nil && w != nil
+//@   requires r != nil && r.recoverFunc != nil && w != nil
 //@   requires panicking() ==> panicval() != nil
 //@   ensures [C16] recovered: !panicking()
 //@   ensures [C16] once: old(panicking()) ==> ncalls("mux.RecoverFunc") == old(ncalls("mux.RecoverFunc")) + 1 &&
-//@        lastarg("mux.RecoverFunc", 2) == old(panicval()) && lastarg("mux.RecoverFunc", 0) == deref(r).recoverFunc && lastarg("mux.RecoverFunc", 1) == deref(w)
+//@        lastarg("mux.RecoverFunc", 2) == old(panicval()) && lastarg("mux.RecoverFunc", 0) == r.recoverFunc && lastarg("mux.RecoverFunc", 1) == w
 //@   ensures [C16] none: !old(panicking()) ==> ncalls("mux.RecoverFunc") == old(ncalls("mux.RecoverFunc"))
 //
 //@ fn Router.serveContext
 //@   exceptional
-//@   requires routerOK(r) && req != nil && req.URL != nil && req.Header != nil && ctx != nil && w != nil && hdrOf(w) != req.Header
+//@   requires routerOK(r) && allSafe() && req != nil && req.URL != nil && req.Header != nil && ctx != nil && w != nil && hdrOf(w) != req.Header
 //@   xensures [C16] escapes-only-without-recovery: r.recoverFunc == nil
 //@   xensures [C16] no-recover-call: ncalls("mux.RecoverFunc") == old(ncalls("mux.RecoverFunc"))
 //@   ensures [C16] recover-count: ncalls("mux.RecoverFunc") == old(ncalls("mux.RecoverFunc")) + (recovered() ? 1 : 0)
@@ -234,7 +267,7 @@ package mux
 //@   atcall mux.cors.handle [C11] only-when-served: callresult("tree.Tree.Handler", 1, 2) && arg0 == r.cors && arg1 == callresult("tree.Tree.Handler", 1, 0) && arg2 == hdrOf(w) && arg3 == req
 //
 //@ fn Router.ServeHTTP
-//@   requires routerOK(r) && req != nil && req.URL != nil && req.Header != nil && w != nil && hdrOf(w) != req.Header
+//@   requires routerOK(r) && allSafe() && req != nil && req.URL != nil && req.Header != nil && w != nil && hdrOf(w) != req.Header
 //@   atcall mux.Router.serveContext [C07,C01] fresh-context: arg0 == r && arg1 == w && arg2 == req && arg3 != nil && len(arg3.params) == 0
 //@   atcall types.Context.Destroy [C16] release: arg0 == callresult("types.NewContext", 1, 0)
 //@   ensures [C16] released: called("types.Context.Destroy", 1)
